@@ -87,6 +87,10 @@ def handle (j : J) : J :=
             ("tree_ok", .bool treeOk),
             ("keys_distinct", .bool (decide (Spec.NullSites.keysOf root).Nodup && Spec.NullSites.keysDistinctFields root)),
             ("bijection", .bool (errs.map Err.path? == sites.map some && sites.all fun p => (dataAt data p).map J.isNull == some true))]
+  | "exec_root" =>
+    match executeRequest (some (j.strD "msg", nodesOfJson (j.getD "nodes"))) .nil with
+    | none => .obj [("exec", .null)]
+    | some (data, errs) => .obj [("exec", .obj [("data", data), ("errors", .arr (errs.map errToJson))])]
   | "lines" =>
     let text := j.textD "text"
     .obj [("lines", .arr ((Spec.Response.splitLines text).map fun l => J.ofNat l.length)),
